@@ -172,7 +172,8 @@ def check_method(C, cls_label, cname, name, m, inst, md, viols, nested_cls):
     # (5) unadvertised names on the REAL method
     if not has_adv_varkw:
         # incl. init-enabled attributes of OTHER spec classes that are in use (Leaf.x / ys, Keyed.key / n / zs, NestO.x, NestK.n)
-        unadv = ["zzz_other", "_private", "hidden", "extras", "nmae", "__class__x", "x", "ys", "key", "n", "zs", "plain"]
+        unadv = ["zzz_other", "_private", "hidden", "extras", "nmae", "__class__x", "x", "ys", "key", "n", "zs", "plain",
+                  "kwargs", "args", "attrs"]  # (names the generated wrapper itself may use for its catch-all parameters)
         before = snap.canon([inst])
         for u in unadv:
             if u in adv_names:
